@@ -91,10 +91,11 @@ theorem C20_policy_encoder_one_vs_many (p : Policy) : valueShape p (toJson p) = 
 def C20_policy_outside_grammar_refused_full : Prop :=
   ∀ j : Json, inGrammar j = false → fromJson j = .error .refused
 
-/-- "JSON that is outside the IAM policy grammar is refused" — for every document outside the four
+/-- "JSON that is outside the IAM policy grammar is refused" — for every document outside the two
     regions of the decidable predicate `quirk` (the document is an array; a `Version`/`Effect` is
-    written `{"<name>": null}`; a statement has two principal, two action or two resource blocks; a
-    principal block has a malformed value) -/
+    written `{"<name>": null}`). In particular a statement with two principal, two action or two
+    resource blocks and a statement whose principal block has a malformed value are refused (these were
+    two further excluded regions until the reader of `Statement` was repaired). -/
 theorem C20_policy_outside_grammar_refused_partial (j : Json) (hq : quirk j = false)
     (hg : inGrammar j = false) : fromJson j = .error .refused := by
   cases h : fromJson? j with
@@ -124,9 +125,11 @@ theorem C20_policy_string_grammar_in_grammar (j : Json) (h : inStringGrammar j =
     refused as soon as (`headMust`) a `Version` is neither null nor a known version, an `Id` is neither
     null nor a string, or `Statement` is missing; or (`stmtMust`) something standing where a statement
     belongs is not an object, has a `Sid` that is neither string nor null, has no `Effect` or an
-    `Effect` other than `Allow`/`Deny`, has no action (resource) block or a first action (resource)
-    block that is not a string or a list of strings (a number, an object, null, a list containing a
-    non-string), or has a `Condition` that is not a map of maps of strings / string lists -/
+    `Effect` other than `Allow`/`Deny`, has no action (resource) block, more than one (under either
+    name), or one that is not a string or a list of strings (a number, an object, null, a list
+    containing a non-string), has more than one principal block or one whose value is neither `"*"` nor
+    a map of strings / string lists, or has a `Condition` that is not a map of maps of strings / string
+    lists -/
 theorem C20_policy_stated_shapes_refused (j : Json)
     (h : headMust j = false ∨ ∃ x ∈ statementNodes j, stmtMust x = false) :
     fromJson j = .error .refused := by
@@ -163,8 +166,12 @@ example : inStringGrammar Ex.doc2List = true ∧
                      resource := .resource (.one Ex.sArn), condition := none }]) := by decide
 /-- the refusal theorem applies to (and the model refuses) each stated shape -/
 example : ∀ j ∈ [Ex.docUnknownEffect, Ex.docUnknownVersion, Ex.docNumberAction, Ex.docObjectEffect, Ex.docNoAction,
-      Ex.docTwoSids], quirk j = false ∧ inGrammar j = false ∧ fromJson? j = none := by decide
-example : ∀ j ∈ [Ex.docUnknownEffect, Ex.docNumberAction, Ex.docObjectEffect, Ex.docNoAction, Ex.docTwoSids],
+      Ex.docTwoSids, Ex.docBothActions, Ex.docNotActionThenAction, Ex.docResourceTwice, Ex.docBothPrincipals,
+      Ex.docNumberPrincipal, Ex.docStringPrincipal, Ex.docNullPrincipal],
+    quirk j = false ∧ inGrammar j = false ∧ fromJson? j = none := by decide
+example : ∀ j ∈ [Ex.docUnknownEffect, Ex.docNumberAction, Ex.docObjectEffect, Ex.docNoAction, Ex.docTwoSids,
+      Ex.docBothActions, Ex.docNotActionThenAction, Ex.docResourceTwice, Ex.docBothPrincipals,
+      Ex.docNumberPrincipal, Ex.docStringPrincipal, Ex.docNullPrincipal],
     ∃ x ∈ statementNodes j, stmtMust x = false := by decide
 example : headMust Ex.docUnknownVersion = false := by decide
 
